@@ -297,3 +297,15 @@ Proof. exact roc_stream_pow2. Qed.
 Theorem C14_roc_pow2_stream_binary64 : forall k p s xs xs', roc_new FOps p = Ok s -> Forall2 (scaled k) xs xs' -> roc_run_ok k s xs ->
   Forall2 (scaled 0) (res_outs (roc_next FOps) s xs) (res_outs (roc_next FOps) s xs').
 Proof. exact roc_pow2_invariant_stream. Qed.
+
+(* ... and the bar paths over whole streams: bars whose high / low / close are multiplied by 2^k (sbar); Rust's f64::max picks one of its
+   operands and the comparison does not change under a positive factor (C14_fmax_pow2_binary64) *)
+From TA Require Import Proofs.FloatScaleKcBar.
+Theorem C14_fmax_pow2_binary64 : forall j a b a' b', scaled j a a' -> scaled j b b' -> scaled j (fmax FOps a b) (fmax FOps a' b').
+Proof. exact fmax_scale. Qed.
+Theorem C14_atr_bar_stream_pow2_binary64 : forall k bs bs' a a', rel_atr k a a' -> Forall2 (sbar k) bs bs' -> atrb_run_ok k a bs ->
+  Forall2 (scaled k) (atr_bar_outs FOps a bs) (atr_bar_outs FOps a' bs').
+Proof. exact atr_bar_stream_pow2. Qed.
+Theorem C14_kc_bar_stream_pow2_binary64 : forall k bs bs' s s', rel_kc k s s' -> Forall2 (sbar k) bs bs' -> kcb_run_ok k s bs ->
+  Forall2 (Forall2 (scaled k)) (kc_bar_outs FOps s bs) (kc_bar_outs FOps s' bs').
+Proof. exact kc_bar_stream_pow2. Qed.
